@@ -1456,6 +1456,10 @@ func conv(fr *frame, t_dst, t_src types.Type, x value) value {
 		}
 	}
 
+	if bs, ok := ut_src.(*types.Basic); ok && bs.Info()&types.IsBoolean != 0 {
+		return x
+	}
+
 	// Remaining conversions:
 	//    + untyped string/number/bool constant to a specific
 	//      representation.
